@@ -586,6 +586,13 @@ class SDRAMPHYModel(Module):
                 address_mapping = address_mapping
             )
 
+        # Column address ---------------------------------------------------------------------------
+        # A10 carries auto-precharge and is never a column bit: columns bits >= 10 are sent on A11 and above.
+        def column(address):
+            if colbits > 10:
+                return Cat(address[:10], address[11:colbits+1])
+            return address[:colbits]
+
         # Banks ------------------------------------------------------------------------------------
         banks = [BankModel(
             data_width     = data_width,
@@ -629,7 +636,7 @@ class SDRAMPHYModel(Module):
                 self.comb += writes[np].eq(phase.write)
                 cases[2**np] = [
                     bank_write.eq(phase.bank == nb),
-                    bank_write_col.eq(phase.address)
+                    bank_write_col.eq(column(phase.address))
                 ]
             self.comb += Case(writes, cases)
             self.comb += [
@@ -660,7 +667,7 @@ class SDRAMPHYModel(Module):
                 self.comb += reads[np].eq(phase.read)
                 cases[2**np] = [
                     bank.read.eq(phase.bank == nb),
-                    bank.read_col.eq(phase.address)
+                    bank.read_col.eq(column(phase.address))
             ]
             self.comb += Case(reads, cases)
 
